@@ -263,6 +263,12 @@ def r3_forbidden_sources(ctx):
                         ctx.ok('wall-clock value in %s flows only into the profiler record (%s)' % (short(f.key), list(ALLOW_MODULES.values())[0]), s.where(), nme)
                     else:
                         ctx.violation('forbidden:%s:%s' % (f.key, nme.split('::')[-1]), '%s (%s) reachable in simulation code — a source of run-to-run nondeterminism' % (what, nme), s.where())
+            # an address fed to a hasher / compared for order: the value differs from process to process (and between two runs in one
+            # process), and with it the iteration order of every hashed collection keyed by such a handle
+            if s.argtys and nme.split('::')[-1] in ('hash', 'hash_slice', 'cmp', 'partial_cmp', 'addr', 'expose_provenance') and \
+                    s.argtys[0].lstrip('&').startswith(('*const ', '*mut ', 'std::ptr::NonNull<')) and \
+                    not (f.key.startswith('des_cqueue::stable::alloc::') or f.key.startswith('<des_cqueue::stable::alloc::')):
+                ctx.violation('address-as-value:%s' % f.key, 'an address is hashed / ordered / turned into a number (address-dependent value)', s.where(), nme)
             if s.argtys and (_default_hashed(s.argtys[0])) and nme.split('::')[-1] in ITER_METHODS and not f.key.split('::')[-1] in ('eq', 'clone', 'fmt'):
                 ctx.violation('hash-iteration:%s' % f.key, 'iteration over a RandomState-hashed collection (order differs between processes)', s.where(), s.argtys[0][:160])
         # pointer -> integer casts outside the allocator
